@@ -80,6 +80,26 @@ pub struct TableDump {
     pub has_unknown_replicas: bool,
 }
 
+/// Answers of the public lookup surface for one (table, token, datacenter); see [`World::lookup_api`].
+#[derive(Clone, Debug, PartialEq, Eq)]
+pub struct LookupApi {
+    pub iter: Vec<ReplicaView>,
+    pub len: usize,
+    pub is_empty: bool,
+    pub size_hint: (usize, Option<usize>),
+    /// `into_iter().nth(k)` on a fresh iterator for k = 0 ..= len + 1
+    pub nth: Vec<Option<ReplicaView>>,
+    /// what is left (and its size_hint) after `nth(1)`
+    pub after_nth1: (Vec<ReplicaView>, (usize, Option<usize>)),
+    pub ordered: Vec<ReplicaView>,
+    /// `choose_filtered` accepting everything (thread RNG: any member is a right answer)
+    pub choose: Option<ReplicaView>,
+    /// `choose_filtered` rejecting everything returned `None`
+    pub choose_none: bool,
+    /// `ClusterState::get_token_endpoints` (ignores the datacenter)
+    pub token_endpoints: Vec<ReplicaView>,
+}
+
 /// What the production payload parser made of a custom payload.
 #[derive(Clone, Debug, PartialEq, Eq)]
 pub enum PayloadOutcome {
@@ -414,6 +434,78 @@ impl World {
             &spec,
         );
         Some(set.into_iter().map(|(n, s)| self.view(n, s)).collect())
+    }
+
+    /// The rest of the public surface that answers from the same tablet: `ReplicaSet::{len, is_empty,
+    /// into_iter (+ size_hint, nth), into_replicas_ordered, choose_filtered}` and
+    /// `ClusterState::get_token_endpoints`. `None` when the table has no tablet entry.
+    pub fn lookup_api(
+        &self,
+        keyspace: &str,
+        table: &str,
+        token: i64,
+        datacenter: Option<&str>,
+    ) -> Option<LookupApi> {
+        let spec = TableSpec::borrowed(keyspace, table);
+        self.state.locator.tablets.tablets_for_table(&spec)?;
+        let strategy = Strategy::LocalStrategy;
+        let set = || {
+            self.state
+                .locator
+                .replicas_for_token(Token::new(token), &strategy, datacenter, &spec)
+        };
+        let len = set().len();
+        let is_empty = set().is_empty();
+        let size_hint = set().into_iter().size_hint();
+        let iter: Vec<ReplicaView> = set().into_iter().map(|(n, s)| self.view(n, s)).collect();
+        let nth = (0..=len + 1)
+            .map(|k| set().into_iter().nth(k).map(|(n, s)| self.view(n, s)))
+            .collect();
+        // nth(1) then the rest: the cursor must sit right behind the element returned
+        let after_nth1 = {
+            let mut it = set().into_iter();
+            let _ = it.nth(1);
+            let hint = it.size_hint();
+            (it.map(|(n, s)| self.view(n, s)).collect(), hint)
+        };
+        let ordered = set()
+            .into_replicas_ordered()
+            .into_iter()
+            .map(|(n, s)| self.view(n, s))
+            .collect();
+        let mut rng = rand::rng();
+        let choose = set()
+            .choose_filtered(&mut rng, |_| true)
+            .map(|(n, s)| self.view(n, s));
+        let choose_none = set().choose_filtered(&mut rng, |_| false).is_none();
+        let token_endpoints = self
+            .state
+            .get_token_endpoints(keyspace, table, Token::new(token))
+            .iter()
+            .map(|(n, s)| self.view(n, *s))
+            .collect();
+        Some(LookupApi {
+            iter,
+            len,
+            is_empty,
+            size_hint,
+            nth,
+            after_nth1,
+            ordered,
+            choose,
+            choose_none,
+            token_endpoints,
+        })
+    }
+
+    /// The production payload parser on a whole custom-payload map (other keys may be present,
+    /// the tablets key may be absent).
+    pub fn parse_payload_map(map: &HashMap<String, Vec<u8>>) -> PayloadOutcome {
+        let map: HashMap<String, Bytes> = map
+            .iter()
+            .map(|(k, v)| (k.clone(), Bytes::copy_from_slice(v)))
+            .collect();
+        Self::parse_custom_payload(&map).0
     }
 
     /// Current topology as the state holds it, sorted by host id.
